@@ -80,8 +80,29 @@ type StructV struct{ F []Value }
 type ArrayV struct{ E []Value }
 
 type SliceV struct {
-	Arr           *Object // holds *ArrayV; nil for nil slice
+	Arr           *Object // holds the backing *ArrayV (at Base); nil for nil slice
 	Off, Len, Cap int
+	Base          []int // path of the backing array inside Arr (nil: the object IS the array); non-nil
+	// for a slice of an array that is a field/element of another object, e.g. n.children[a:b]
+}
+
+// elemPtr addresses element i of the slice.
+func (s SliceV) elemPtr(i int) Ptr {
+	path := make([]int, 0, len(s.Base)+1)
+	path = append(path, s.Base...)
+	return Ptr{Obj: s.Arr, Path: append(path, s.Off+i)}
+}
+
+func (s SliceV) sameBacking(t SliceV) bool {
+	if s.Arr == nil || s.Arr != t.Arr || len(s.Base) != len(t.Base) {
+		return false
+	}
+	for i := range s.Base {
+		if s.Base[i] != t.Base[i] {
+			return false
+		}
+	}
+	return true
 }
 
 type StringV struct {
@@ -206,7 +227,7 @@ func describe(v Value) string {
 		if x.Arr == nil {
 			return "[]nil"
 		}
-		return fmt.Sprintf("slice(o%d,%d,%d,%d)", x.Arr.ID, x.Off, x.Len, x.Cap)
+		return fmt.Sprintf("slice(o%d%v,%d,%d,%d)", x.Arr.ID, x.Base, x.Off, x.Len, x.Cap)
 	case StringV:
 		if x.Opaque != nil {
 			return "str<" + x.Opaque.Kind + ">"
